@@ -7,7 +7,8 @@ NO_KF = os.environ.get("C10_NO_KF") == "1"      # C10_NO_KF=1: run the synchrono
 def _hook():
     try:
         with open(os.path.join(REPO, "src", "threadpool", "threadpool_msg_sys.c")) as f:
-            return re.search(r"#\s*ifndef\s+TPT_MSG_COUNT_TO_READ", f.read()) is not None
+            t = f.read()
+            return ("!defined(TPT_MSG_COUNT_TO_READ)" in t) or (re.search(r"#\s*ifndef\s+TPT_MSG_COUNT_TO_READ", t) is not None)
     except OSError:
         return False
 
@@ -20,9 +21,10 @@ META = {
     "bounds": "pools of 1, 2 and 3 threads; caller outside the pool or pool thread 0/1; every flag combination that is relevant "
               "for the shape (self-skip, self-direct, sync, sync-sleep, force, fail-direct, one-by-one); every subset of failing "
               "queue writes (by position) and every subset of not-running threads for 2 threads, selected ones for 3; "
-              "solver-chosen: which worker runs at each of the first 3 scheduling points of the call (write / lock / unlock), "
-              "whether the synchronous caller returns as soon as the count is zero, src passed as NULL or as the own thread, "
-              "order of 2 worker steps after an asynchronous call (then a fixed drain); "
+              "src passed as NULL or as the own thread (enumerated); "
+              "solver-chosen: which worker runs at each of the first 3 (3-thread pools: 2) scheduling points of the call (write / lock / unlock), "
+              "whether the synchronous caller returns as soon as the count is zero, "
+              "order of 2 (3-thread pools: 1) worker steps after an asynchronous call (then a fixed drain); "
               + ("<= 3 packets per read() (TPT_MSG_COUNT_TO_READ=3 under the LIBLCB_VERIF hook)" if HOOK else
                  "real TPT_MSG_COUNT_TO_READ=1024 buffer, <= 2 packets queued per pipe"),
     "outside": "pools of 4..16 threads; interleavings finer than mutex-operation / system-call granularity (argued: the only "
@@ -60,25 +62,26 @@ def unwindset(mode, nthr):
     us = ["memmem.0:1", "memmem.1:1", "tpt_msg_recv_and_process.2:1", "tpt_msg_recv_and_process.0:2",
           "tpt_msg_recv_and_process.1:4", "tpt_msg_recv_and_process:0", "tpt_loop.0:3",
           "tp_create.3:%d" % (n + 1), "tp_threads_create.0:%d" % (n + 1), "strlen.0:4", "thr_tpt.0:%d" % (n + 1),
-          "worker_step.0:%d" % (n + 1), "env_move.0:%d" % (n + 1), "tpt_msg_send:2", "tpt_msg_sync_proxy_cb:0",
+          "worker_step.0:%d" % (n + 1), "env_move.0:%d" % (n + 1), "tpt_msg_send:2", "tpt_msg_sync_proxy_cb:1",
           "tpt_msg_cb_done_proxy_cb:0", "cb_user:0", "worker_step:1", "tpt_msg_broadcast_send__int.0:%d" % (n + 1),
           "tpt_msg_bsend_ex.0:2", "pending_total.0:%d" % (n + 2), "cb_user.0:%d" % (n + 1), "pthread_create_eagain.0:2",
           "v_close.0:4", "v_close.1:%d" % (n + 2), "v_read.0:5"]
-    us += ["harness.%d:%d" % (i, n + 3) for i in range(7)]
+    us += ["harness.%d:%d" % (i, n + 3) for i in range(11)]   # ids that do not exist in a mode only produce a warning
     if mode == 3:
-        us += ["tpt_msg_one_by_one_proxy_cb:0", "tpt_msg_one_by_one_send_next__int.0:%d" % (n + 1), "harness.7:%d" % (n + 3)]
+        us += ["tpt_msg_one_by_one_proxy_cb:0", "tpt_msg_one_by_one_send_next__int.0:%d" % (n + 1)]
     return us
 
 
 def job(mode, nthr, caller, flags, wfail=0, down=0, srcnull=None, nstep=2, nsched=3, tier="quick"):
     defs = {"MODE": mode, "NTHR": nthr, "CALLER": caller, "FLAGS": flags, "WFAIL": wfail, "DOWN": down,
             "NSTEP": nstep, "NSCHED": nsched, "V_NO_FAULTS": None, "V_QCAP": 3 if HOOK else 2}
-    if srcnull is not None:
-        defs["SRCNULL"] = srcnull
+    if srcnull is None:     # a symbolic src form costs 10x (346 k vs 34 k SSA steps): enumerated as a shape instead
+        srcnull = 1 if caller < 0 else (flags ^ wfail ^ caller ^ nthr) & 1
+    defs["SRCNULL"] = srcnull
+    if nthr >= 3:           # 3 threads: 2 scheduling points + 1 free worker step (memory: 10 GB cap)
+        defs.update(NSTEP=min(nstep, 1), NSCHED=min(nsched, 2))
     if mode == 3:
         defs.update(NSTEP=0, NSCHED=0)
-        if srcnull is None:
-            defs["SRCNULL"] = 0
     if mode == 1:
         defs["NSTEP"] = 0
         if not NO_KF:
@@ -91,7 +94,7 @@ def job(mode, nthr, caller, flags, wfail=0, down=0, srcnull=None, nstep=2, nsche
     mname = ["bsend", "sync", "cbsend", "obo"][mode]
     return {
         "name": "%s-t%d-c%s-f%d-w%d-d%d%s" % (mname, nthr, "x" if caller < 0 else caller, flags, wfail, down,
-                                             "" if srcnull is None else "-s%d" % srcnull),
+                                             "-s%d" % srcnull),
         "src": "bcast.c", "defs": defs, "unwind": 3, "unwindset": unwindset(mode, nthr), "solver": "cadical",
         "flags": flags_cbmc, "timeout": 400 if tier == "quick" else 1500, "mem_gb": 10,
         "shape": "mode=%s threads=%d caller=%s flags=0x%x failing-writes-mask=%d not-running-mask=%d" % (
@@ -118,7 +121,6 @@ def jobs(tier):
     add(1, 2, -1, 0, down=1)
     add(1, 2, 0, 1)                      # pool thread, self-skip
     add(1, 2, 0, 2)                      # pool thread, self-direct
-    add(1, 2, 0, 0)                      # pool thread, neither: documented deadlock (vacuous paths are cut; return path unreachable)
     add(1, 3, 1, 1, wfail=2)
     add(1, 1, 0, 0)
     add(0, 2, -1, 0)
@@ -159,7 +161,7 @@ def jobs(tier):
                         for mode in (0, 1, 2, 3):
                             if mode >= 2 and caller < 0 and (fl or extra or wfail or down):
                                 continue
-                            for sn in ((None,) if mode != 3 else ((0, 1) if caller >= 0 else (0,))):
+                            for sn in ((0, 1) if caller >= 0 and not (extra or down) else (None,)):
                                 add(mode, 2, caller, fl | extra, wfail=wfail, down=down, srcnull=sn)
                         if caller < 0:
                             add(1, 2, caller, fl | extra | 4, wfail=wfail, down=down)
